@@ -359,6 +359,14 @@ def ccf_encode(data, columns):
     return t6.assemble([t6.bits_of_row(sy) for sy in syms], False)
 
 
+import functools
+
+
+@functools.lru_cache(maxsize=512)
+def _lzw_cached(data, clear_half, ec):
+    return lzw_encode(data, extra_clears=(len(data) // 2,) if clear_half else (), ec=ec)
+
+
 def encode_layer(f, data, variant=0, ec=1, columns=8):
     """one codec layer; f in AHx A85 LZW Fl RL CCF; variant picks among legal spellings of the encoding"""
     if f == "Fl":
@@ -366,7 +374,7 @@ def encode_layer(f, data, variant=0, ec=1, columns=8):
     if f == "CCF":
         return ccf_encode(data, columns)
     if f == "LZW":
-        return lzw_encode(data, extra_clears=(len(data) // 2,) if variant % 2 and len(data) > 2 else (), ec=ec)
+        return _lzw_cached(bytes(data), bool(variant % 2 and len(data) > 2), ec)
     if f == "RL":
         return rl_encode(data, random.Random(variant) if variant % 2 else None)
     if f == "AHx":
